@@ -3,4 +3,5 @@
 pub mod engine;
 pub mod fuzzdrv;
 pub mod sim;
+pub mod targets;
 pub mod props;
